@@ -339,8 +339,10 @@ impl Method for Renko {
 		self.volume += candle.volume();
 
 		if value >= self.next_block_upper {
-			let len = ((value - self.last_block_upper) / self.last_block_upper / self.brick_size)
-				as usize;
+			// the threshold test passed, so there is at least one brick even if the quotient rounds below 1
+			let len = (((value - self.last_block_upper) / self.last_block_upper / self.brick_size)
+				as usize)
+				.max(1);
 			let base_line = self.last_block_upper;
 
 			self.last_block_upper = base_line * (1. + self.brick_size * len as ValueType);
@@ -359,8 +361,10 @@ impl Method for Renko {
 				block_volume: volume / len as ValueType,
 			}
 		} else if value <= self.next_block_lower {
-			let len = ((self.last_block_lower - value) / self.last_block_lower / self.brick_size)
-				as usize;
+			// the threshold test passed, so there is at least one brick even if the quotient rounds below 1
+			let len = (((self.last_block_lower - value) / self.last_block_lower / self.brick_size)
+				as usize)
+				.max(1);
 			let base_line = self.last_block_lower;
 
 			self.last_block_upper = base_line * (1. - self.brick_size * (len - 1) as ValueType);
